@@ -16,3 +16,8 @@ path_is_absolute = uninterp("meth_is_absolute", ["opaque"], "bool", spec_name="p
 def dec_value(s):
     """The integer a decimal literal (optional leading minus) denotes."""
     return int(s)
+
+# ---- files: what parse_file(path) returns is a function of the path (and the file system, fixed during a run)
+parsed_file = uninterp("parsed_file", ["opaque"], "ref")
+py_Path_of = uninterp("py_Path_of", ["opaque"], "opaque")
+resolved_path_of = uninterp("resolved_path_of", ["ref"], "opaque")
